@@ -46,8 +46,14 @@ def observe(policy, req, gcfg, acfg):
             setattr(guard, name, boom)
         for name in ("evaluate_sync", "is_allowed_sync"):
             setattr(guard, name, boom_sync)
-    mw = RbacxMiddleware(app, guard=guard, mode=acfg["mode"], build_env=builder if acfg["builder"] else None,
-                         add_headers=acfg["add_headers"])
+    if acfg.get("configure_after"):
+        # built with other settings, then configured through its public attributes: what counts is what they say at request time
+        mw = RbacxMiddleware(app, guard=guard, mode="inject" if acfg["mode"] == "enforce" else "enforce", build_env=None,
+                             add_headers=not acfg["add_headers"])
+        mw.mode, mw.build_env, mw.add_headers = acfg["mode"], (builder if acfg["builder"] else None), acfg["add_headers"]
+    else:
+        mw = RbacxMiddleware(app, guard=guard, mode=acfg["mode"], build_env=builder if acfg["builder"] else None,
+                             add_headers=acfg["add_headers"])
     scope = {"type": acfg["scope_type"]} if acfg["scope_type"] is not None else {}
     # request details the decision does not depend on: enforcement may not depend on them either
     scope.update(acfg.get("scope_extra") or {})
@@ -160,6 +166,7 @@ def acfgs():
             for extra in SCOPE_EXTRAS[1:]:
                 yield {**a, "scope_extra": extra}
             yield {**a, "engine_raises": "RuntimeError"}
+            yield {**a, "configure_after": True}
             k += 1
             yield {**a, "engine_raises": "RuntimeError", "scope_extra": SCOPE_EXTRAS[1 + k % (len(SCOPE_EXTRAS) - 1)]}
 
@@ -204,7 +211,7 @@ def run_cases(run: lib.Run, audit: dict, scale: int = 1):
         obs.append(acts)
         cmd = real.guard_cmd(pol, req, cfg, consts, proto.build_oracle(pol, req, cfg.get("resolver"), cfg.get("checker")))
         cmd["cmd"] = "asgi"
-        cmd["asgi"] = {k: v for k, v in {**a, "scope_type": proto.enc(a["scope_type"])}.items() if k != "scope_extra"}
+        cmd["asgi"] = {k: v for k, v in {**a, "scope_type": proto.enc(a["scope_type"])}.items() if k not in ("scope_extra", "configure_after")}
         cmds.append(cmd)
     answers = proto.run_driver(cmds)
     for (pol, req, cfg, a), acts, model in zip(cases, obs, answers):
